@@ -432,6 +432,7 @@ def fuse_generators(fn, find_method=None, find_function=None, rounds=3):
         (E for a, b in (X, Y for gens) if c)      ->   (E[a:=X, b:=Y] for gens if c[a:=X, b:=Y])
     the inner generator possibly being the value of a small helper (see straightline_value). Bound names of the inner
     generator must not be free in the outer one (no capture), else the comprehension is left alone."""
+    _outer_parent = getattr(fn, "_parent", None)
     fn = clone(fn)
 
     def bound(gens):
@@ -493,7 +494,9 @@ def fuse_generators(fn, find_method=None, find_function=None, rounds=3):
         if not T.changed:
             break
     ast.fix_missing_locations(fn)
-    return set_parents(fn)
+    set_parents(fn)
+    fn._parent = _outer_parent         # (a helper view keeps pointing to the call it was expanded from)
+    return fn
 
 
 def degroup_loops(fn):
@@ -502,6 +505,7 @@ def degroup_loops(fn):
             ->   for k in K:  g = ((k, x) for x in X if c);  BODY
     (the generator possibly bound to a local first). The only difference — BODY does not run for a key without items —
     does not matter to a reader who asks what k and the items of g range over."""
+    _outer_parent = getattr(fn, "_parent", None)
     fn = clone(fn)
     defs = single_assignments(fn)
 
@@ -558,7 +562,9 @@ def degroup_loops(fn):
         return out
     fn.body = rewrite(fn.body)
     ast.fix_missing_locations(fn)
-    return set_parents(fn)
+    set_parents(fn)
+    fn._parent = _outer_parent
+    return fn
 
 
 def inline_generator_loops(fn, find_method=None, find_function=None):
